@@ -402,6 +402,7 @@ def run_tlc(cases_file, workers=16, timeout_s=TLC_TIMEOUT_S):
     meta = tempfile.mkdtemp(prefix="tlc_decconf_")
     env = dict(os.environ)
     env["CASES_FILE"] = cases_file
+    env["JAVA_TOOL_OPTIONS"] = (env.get("JAVA_TOOL_OPTIONS", "") + " -Djava.io.tmpdir=" + meta).strip()   # TLC's tlc-<n> directory goes where we clean up
     # deliberately no -Xss here: SQDecimal must work with the default JVM thread stack
     cmd = ["timeout", str(timeout_s), "tlc", "-workers", str(workers), "-continue",
            "-metadir", meta, "-noGenerateSpecTE", "-config", "TraceDecimal.cfg", "TraceDecimal.tla"]
